@@ -76,22 +76,79 @@ def _digest(x):
     return core.sha(x)
 
 
-def graph_parts(g, payload="basic"):
+# (stages called out of turn were tried here and dropped: restructure_branch on
+# a graph that still has cycles fails at a block picked in set order - which
+# block the KeyError names is not a "result" the statement speaks about)
+HISTORIES = ["orphan", "refused_remove", "refused_middle"]
+
+
+def _fault_history(scfg, g, which, parts):
+    """A fault at a particular point before the pipeline: an edit the library
+    refuses half-way (KeyError for an unknown name) or stages called out of
+    turn.  Whatever that leaves, it must be the same in every process."""
+    from numba_scfg.core.datastructures.basic_block import SyntheticFill
+
+    names = list(g)
+    try:
+        if which == "orphan":
+            # the new block is added before the predecessors are looked up
+            scfg.insert_block("synth_fill_block_77", ["<no such block>", names[0]],
+                              list(g[names[0]][:1]), SyntheticFill)
+        elif which == "refused_middle":
+            scfg.insert_block("synth_fill_block_77", [names[0], "<no such block>", names[-1]],
+                              list(g[names[0]][:1]), SyntheticFill)
+        elif which == "refused_remove":
+            scfg.remove_blocks([names[-1], "<no such block>"])
+        else:
+            for nm in ("restructure_branch", "restructure_loop"):
+                try:
+                    getattr(scfg, nm)()
+                except Exception as e:
+                    k = attach.exc_key(e)
+                    parts.append(("pre:" + nm, _digest(["exception", k["type"], k["site"], k["text"]])))
+        parts.append(("fault:" + which, _digest("accepted")))
+    except Exception as e:
+        k = attach.exc_key(e)
+        parts.append(("fault:" + which, _digest(["exception", k["type"], k["site"], k["text"]])))
+    try:
+        parts.append(("after_fault", _digest(dump(scfg))))
+    except RecursionError:
+        parts.append(("after_fault", _digest("cyclic hierarchy")))
+
+
+def graph_parts(g, payload="basic", history=None):
     """-> (list of (part, digest), inserted_synthetic)"""
-    from ..checks.graphbase import features
+    from ..checks.graphbase import features, _nesting_ok
+    from ..monitors import budget
 
     parts = []
     ctx = core.set_ctx(core.Ctx(None))
     attach.ACTIVE.clear()
     scfg = drivers.make_scfg(g, payload, drivers.how_for(g))
-    for st, name in (("J", "join_returns"), ("L", "restructure_loop"), ("B", "restructure_branch")):
-        try:
-            getattr(scfg, name)()
-            parts.append((st, _digest(dump(scfg))))
-        except Exception as e:
-            k = attach.exc_key(e)
-            parts.append((st, _digest(["exception", k["type"], k["site"], k["text"]])))
-            break
+    if history:
+        budget.install(None)
+        budget.start(400_000 + 4000 * len(g))
+    try:
+        if history:
+            _fault_history(scfg, g, history, parts)
+        for st, name in (("J", "join_returns"), ("L", "restructure_loop"), ("B", "restructure_branch")):
+            try:
+                getattr(scfg, name)()
+                if history and not _nesting_ok(scfg):
+                    parts.append((st, _digest("cyclic hierarchy")))
+                    break
+                parts.append((st, _digest(dump(scfg))))
+            except Exception as e:
+                k = attach.exc_key(e)
+                parts.append((st, _digest(["exception", k["type"], k["site"], k["text"]])))
+                break
+    except budget.BudgetExceeded:
+        parts.append(("budget", _digest("stage does not come back after the fault history")))
+    finally:
+        if history:
+            budget.stop()
+    if history:
+        return parts, True
     f = features(ctx, scfg, "JLB")
     return parts, f["synth"] > 0
 
@@ -154,14 +211,18 @@ def run_shard(spec):
             g = graphs.make_case(spec["cls"], spec["seed"], i)
             if g is None:
                 continue
-            parts, nt = graph_parts(g)
+            hist = HISTORIES[(i // 3) % len(HISTORIES)] if i % 3 == 1 else None
+            parts, nt = graph_parts(g, history=hist)
             key = f"{spec['cls']}/{spec['seed']}/{i}"
             digests[key] = parts
             ctx = core.Ctx(key)
+            if hist:
+                ctx.hit("c12.fault_histories")
+                ctx.hit("c12.fault_histories." + hist)
             if i % 2 == 0:
-                _again(ctx, parts, lambda: graph_parts(g)[0])
+                _again(ctx, parts, lambda: graph_parts(g, history=hist)[0])
             ctx.hit("c12.digests_recorded", len(parts))
-            acc.add_ctx(ctx, {"kind": "graph", "cls": spec["cls"], "g": g, "id": key},
+            acc.add_ctx(ctx, {"kind": "graph", "cls": spec["cls"], "g": g, "id": key, "history": hist},
                         nontrivial_hash=core.graph_hash(g) if nt else None,
                         sample=(acc.evaluations % 97 == 0))
     elif k == "programs":
@@ -180,7 +241,8 @@ def run_shard(spec):
     elif k == "single":
         c = spec["case"]
         if c["kind"] == "graph":
-            parts, _ = graph_parts({a: tuple(b) for a, b in c["g"].items()})
+            parts, _ = graph_parts({a: tuple(b) for a, b in c["g"].items()},
+                                   history=c.get("history"))
         else:
             parts, _ = program_parts(c["src"])
         digests[c.get("id", "case")] = parts
@@ -229,7 +291,9 @@ def post(m, results, tier, seed):
                 case = {"kind": "program", "cls": cls, "src": programs.make_program(cls, int(sd), int(i)), "id": key}
             else:
                 cls, sd, i = key.split("/")
-                case = {"kind": "graph", "cls": cls, "g": graphs.make_case(cls, int(sd), int(i)), "id": key}
+                i = int(i)
+                case = {"kind": "graph", "cls": cls, "g": graphs.make_case(cls, int(sd), i), "id": key,
+                        "history": HISTORIES[(i // 3) % len(HISTORIES)] if i % 3 == 1 else None}
             m["findings"].append({"prop": "C12", "kind": kind, "key": kind, "detail": detail,
                                   "case": case, "stage": None, "mech": None})
 
